@@ -1,5 +1,193 @@
-(* C15 — placeholder while the streams are brought up; replaced by the real statements *)
-From Coq Require Import List.
-From CA Require Import Model.Symbols Spec.Scope.
-Theorem C15_placeholder : True.
-Proof. exact I. Qed.
+(* C15 — Symbols resolve lexically and independently of declaration order.
+   Only statements; each closed by a lemma of Proofs/SymbolsP.v, SymResolveP.v, ConstPassP.v.
+   Model: Model/Symbols.v (util::SymbolManager, decls::symbol::collect, the iterator's contexts),
+   Model/ConstPass.v (constant pre-pass), Model/SymResolve.v (references in the main passes).
+   Spec: Spec/Scope.v (forest, scope walk), Spec/ConstDen.v (denotation of address-free constants).
+
+   Reading (DESIGN appendix B): ANY symbol, label or constant, opens a scope for deeper levels; the expression
+   of a constant is resolved in the scopes that hold right after its own declaration; reserved words
+   (pc, le, sizeof, ..., incbin) are answered before the table is asked (finding F54). *)
+From Coq Require Import ZArith NArith List Bool Arith.
+From CA Require Import Model.Paths Model.Symbols Model.ConstPass Model.SymResolve Spec.Scope Spec.ConstDen
+  Proofs.SymbolsP Proofs.SymResolveP Proofs.ConstPassP.
+Import ListNotations.
+Open Scope nat_scope.
+
+(* ---------------------------------------------------------------- lookup = scope walk *)
+(* For EVERY freshly parsed program (any sequence of symbol declarations - dots, name, kind - and other nodes)
+   that decls::collect accepts: the specification accepts it too, and at EVERY node i, with the context the
+   resolver holds there (node_ctxs), EVERY lookup (k dots, dotted path) of the symbol table equals the scope
+   walk on the final forest from the scopes enclosing node i. *)
+Theorem C15_lookup : forall nodes m ast, fresh nodes -> collect mgr_new nodes = ROk (m, ast) ->
+  exists encls F ctxs,
+    scopes (prog_of nodes) = Some (encls, F) /\ node_ctxs m ctx_global ast = ROk ctxs /\
+    length ctxs = length nodes /\
+    forall i ctx, nth_error ctxs i = Some ctx ->
+      exists encl, nth_error encls i = Some encl /\
+        forall k path, try_get_by_name m ctx k path = ROk (scope_resolve F encl k path).
+Proof. exact lookup_spec. Qed.
+
+(* ---------------------------------------------------------------- rejected declarations: exactly those *)
+(* a program is rejected by decls::collect iff the specification rejects one of its declarations; never a panic *)
+Theorem C15_declare_errors : forall nodes, fresh nodes ->
+  (collect mgr_new nodes = RErr <-> scopes (prog_of nodes) = None) /\
+  collect mgr_new nodes <> RPanic /\ collect mgr_new nodes <> RFuel.
+Proof. exact collect_errors. Qed.
+
+(* ... and the specification rejects a declaration exactly when it skips a nesting level or repeats a name of
+   its scope *)
+Theorem C15_declare_errors_exactly : forall k f nm id,
+  scope_insert k f nm id = None <-> skips_level f k = true \/ duplicate_in_scope f k nm = true.
+Proof. exact insert_none_iff. Qed.
+
+(* the same for one more declaration in the state reached after any accepted program (Inv, established by
+   C15_reaches): SymbolManager::declare fails iff skipped level or duplicate, and never panics *)
+Theorem C15_reaches : forall nodes m ast, fresh nodes -> collect mgr_new nodes = ROk (m, ast) ->
+  exists encls F next, scopes (prog_of nodes) = Some (encls, F) /\ Inv m F next.
+Proof. exact collect_reaches. Qed.
+
+Theorem C15_declare_step_errors : forall m F next k nm kind, Inv m F next ->
+  (declare m (rnames F) nm k kind = RErr <-> skips_level F k = true \/ duplicate_in_scope F k nm = true) /\
+  declare m (rnames F) nm k kind <> RPanic /\ declare m (rnames F) nm k kind <> RFuel.
+Proof. exact declare_errors. Qed.
+
+(* ---------------------------------------------------------------- undeclared names *)
+(* In the last iteration (can_guess = false) an expression that contains a reference the table does not know
+   in the current context - and that is not a reserved word - never evaluates: the pass fails.  Stated for
+   references that are evaluated: the expression language has strict operators only (`c ? a : nosuch` with a
+   true c assembles; noted in the evidence). *)
+Theorem C15_unknown : forall nm m defs ctx addr e,
+  has_unknown nm m ctx e -> forall v, eval_full nm m defs ctx false addr e <> ROk v.
+Proof. exact unknown_fails. Qed.
+
+(* ---------------------------------------------------------------- use before declaration *)
+(* What a reference resolves to depends on the FINAL forest (all declarations, earlier and later alike) and on
+   the enclosing declaration k-1 levels up at the point of use - nothing else.  So two points i, j of a
+   program (e.g. one before and one after the target's declaration) with the same enclosing declaration at
+   that depth resolve (k, path) to the same declaration; with k = 0 every point does. *)
+Theorem C15_forward : forall nodes m ast, fresh nodes -> collect mgr_new nodes = ROk (m, ast) ->
+  exists encls F ctxs,
+    scopes (prog_of nodes) = Some (encls, F) /\ node_ctxs m ctx_global ast = ROk ctxs /\
+    forall i j ci cj ei ej,
+      nth_error ctxs i = Some ci -> nth_error ctxs j = Some cj ->
+      nth_error encls i = Some ei -> nth_error encls j = Some ej ->
+      forall k path,
+        (match k with O => True | S k' => nth_error ei k' = nth_error ej k' end) ->
+        try_get_by_name m ci k path = try_get_by_name m cj k path /\
+        try_get_by_name m ci k path = ROk (scope_resolve F ei k path).
+Proof. exact forward_spec. Qed.
+
+(* ---------------------------------------------------------------- constants *)
+(* FULL statement (not proved in Coq; checked on the implementation by the `rounds` and `chain` streams):
+   started from the all-unknown table, the pre-pass loop with fuel |constants| + 1 never runs out of fuel, and
+   when it returns, every address-free acyclic constant holds its denotation. *)
+Definition C15_constants_fixpoint_statement : Prop :=
+  forall nm opt m cs look n,
+    (forall p, try_get_by_name m ctx_global 0 p = ROk (look p)) ->
+    NoDup (map fst cs) -> (forall r e, In (r, e) cs -> r < n) ->
+    let defs0 := define_symbols n (expr_of cs) in
+    prepass nm opt m cs defs0 <> RFuel /\
+    forall defs, prepass nm opt m cs defs0 = ROk defs ->
+      forall r z, den (plain nm) look cs r z -> vals defs r = VInt z.
+
+(* PROVED part: (1) evaluation is monotone in the information order Unknown <= v (DESIGN A.7);
+   (2) in every STABLE table - one where each constant holds what its expression evaluates to, which is what
+   the loop's stop rule "resolved count unchanged" is meant to detect - every address-free acyclic constant
+   equals its denotation, by induction on the dependency depth (the derivation of `den`).
+   MISSING: that the table the loop stops in is stable (known values never change, so an unchanged count means
+   an unchanged table) and the fuel bound. *)
+Theorem C15_constants_fixpoint_partial : forall nm m cs look,
+  (forall p, try_get_by_name m ctx_global 0 p = ROk (look p)) ->
+  forall defs, stable nm m cs defs ->
+  forall r z, den (plain nm) look cs r z -> vals defs r = VInt z.
+Proof. exact stable_den. Qed.
+
+Theorem C15_eval_monotone : forall nm m d1 d2 e, below d1 d2 ->
+  eval_simple nm m d1 e = ROk VUnknown \/ eval_simple nm m d1 e = eval_simple nm m d2 e.
+Proof. exact eval_monotone. Qed.
+
+(* FULL statement of C15_order: two programs that declare the same constants (same full names, same
+   expressions) at other positions of the same scopes assemble to the same symbol values.  PROVED part: the
+   value of an address-free acyclic constant in a stable table does not depend on the order in which the
+   constants are visited - any two stable tables, for any two orderings cs, cs' of the same constants, agree.
+   MISSING: as above, plus the renumbering of item indices when declarations move (checked by the `order`
+   stream on the implementation). *)
+Theorem C15_order_partial : forall nm m cs cs' look,
+  (forall p, try_get_by_name m ctx_global 0 p = ROk (look p)) ->
+  (forall x, In x cs <-> In x cs') ->
+  forall d1 d2, stable nm m cs d1 -> stable nm m cs' d2 ->
+  forall r z, den (plain nm) look cs r z -> vals d1 r = vals d2 r.
+Proof.
+  intros nm m cs cs' look L P d1 d2 S1 S2.
+  apply (stable_unique nm m cs look L d1 d2 S1).
+  apply (stable_perm nm m cs' cs d2); [intro x; symmetry; apply P | exact S2].
+Qed.
+
+(* ---------------------------------------------------------------- non-vacuity *)
+Definition tx (s : list nat) : text := map N.of_nat s.
+(*  g:  .a:  (other)  h:  .a:  ..b = _   — `a` twice under different parents *)
+Definition ex_nodes : list anode :=
+  [ASym 0 (tx [103]) KLabel None; ASym 1 (tx [97]) KLabel None; AOther;
+   ASym 0 (tx [104]) KLabel None; ASym 1 (tx [97]) KLabel None; ASym 2 (tx [98]) KConstant None].
+
+Example C15_nonvacuous_lookup :
+  fresh ex_nodes /\
+  match collect mgr_new ex_nodes with
+  | ROk (m, ast) =>
+      node_ctxs m ctx_global ast = ROk [[tx [103]]; [tx [103]; tx [97]]; [tx [103]; tx [97]]; [tx [104]];
+                                        [tx [104]; tx [97]]; [tx [104]; tx [97]; tx [98]]] /\
+      (* `.a` under g is item 1, under h item 4; `g.a` from anywhere is 1; `..b` before its declaration is 5 *)
+      try_get_by_name m [tx [103]; tx [97]] 1 [tx [97]] = ROk (Some 1) /\
+      try_get_by_name m [tx [104]; tx [97]] 1 [tx [97]] = ROk (Some 4) /\
+      try_get_by_name m [tx [104]; tx [97]] 0 [tx [103]; tx [97]] = ROk (Some 1) /\
+      try_get_by_name m [tx [104]; tx [97]] 2 [tx [98]] = ROk (Some 5) /\
+      try_get_by_name m [tx [103]; tx [97]] 2 [tx [98]] = ROk None /\
+      try_get_by_name m [tx [104]] 2 [tx [98]] = ROk None
+  | _ => False
+  end /\
+  match scopes (prog_of ex_nodes) with
+  | Some (encls, F) => encls = [[0]; [0; 1]; [0; 1]; [3]; [3; 4]; [3; 4; 5]] /\
+                       scope_resolve F [3; 4] 2 [tx [98]] = Some 5 /\ scope_resolve F [0; 1] 1 [tx [97]] = Some 1
+  | None => False
+  end.
+Proof. vm_compute. repeat split. Qed.
+
+Example C15_nonvacuous_errors :
+  collect mgr_new [ASym 0 (tx [103]) KLabel None; ASym 2 (tx [97]) KLabel None] = RErr /\
+  collect mgr_new [ASym 0 (tx [103]) KLabel None; ASym 1 (tx [97]) KLabel None; ASym 1 (tx [97]) KConstant None] = RErr /\
+  skips_level (FCons (tx [103]) 0 FNil FNil) 2 = true /\
+  duplicate_in_scope (FCons (tx [103]) 0 (FCons (tx [97]) 1 FNil FNil) FNil) 1 (tx [97]) = true /\
+  (exists m a, collect mgr_new [ASym 0 (tx [103]) KLabel None; ASym 1 (tx [97]) KLabel None;
+                               ASym 0 (tx [104]) KLabel None; ASym 1 (tx [97]) KLabel None] = ROk (m, a)).
+Proof. repeat split; try reflexivity. vm_compute. eauto. Qed.
+
+Definition no_names : names := mkNames (fun _ => false) (fun _ => false) (fun _ => false).
+
+(* `g:` then `#d8 nosuch + 1` in the final pass: the premise of C15_unknown holds and the evaluation fails *)
+Example C15_nonvacuous_unknown :
+  match collect mgr_new [ASym 0 (tx [103]) KLabel None] with
+  | ROk (m, _) =>
+      has_unknown no_names m [tx [103]] (CAdd (CRef 0 [tx [110]]) (CLit 1)) /\
+      eval_full no_names m [mkSym (VInt 0) false false] [tx [103]] false (ROk 0%Z) (CAdd (CRef 0 [tx [110]]) (CLit 1)) = RErr /\
+      eval_full no_names m [mkSym (VInt 7) false false] [tx [103]] false (ROk 0%Z) (CAdd (CRef 0 [tx [103]]) (CLit 1)) = ROk (VInt 8)
+  | _ => False
+  end.
+Proof.
+  vm_compute. split; [|split; reflexivity].
+  apply hu_add_l. apply hu_ref; [|reflexivity]. split; [reflexivity|]. split; reflexivity.
+Qed.
+
+(* k0 = k1 + 1 ; k1 = 5 declared in that order: the pre-pass needs two rounds, stops in the third, and the
+   result is the denotation (6, 5); it is a stable table *)
+Example C15_nonvacuous_constants :
+  match collect mgr_new [ASym 0 (tx [107; 48]) KConstant None; ASym 0 (tx [107; 49]) KConstant None] with
+  | ROk (m, _) =>
+      let cs := [(0, CAdd (CRef 0 [tx [107; 49]]) (CLit 1)); (1, CLit 5)] in
+      match prepass no_names true m cs (define_symbols 2 (expr_of cs)) with
+      | ROk defs => vals defs 0 = VInt 6 /\ vals defs 1 = VInt 5
+      | _ => False
+      end /\
+      prepass_loop 1 no_names true m cs 0 (define_symbols 2 (expr_of cs)) = RFuel
+  | _ => False
+  end.
+Proof. vm_compute. repeat split. Qed.
